@@ -367,11 +367,14 @@ def printL (o : Opts) : Nat → List S → Bool → Option (List Tok)
       | some r => some ((if pending then [Tok.p ";"] else []) ++ ts ++ r)
 end
 
-/-- model of `(*js.Minifier).Minify` on a program of the fragment (`KeepVarNames`), as source characters -/
-def jsMinify (o : Opts) (prog : List S) : Option (List Char) :=
+/-- the tokens `(*js.Minifier).Minify` writes for a program of the fragment (`KeepVarNames`) -/
+def jsTokens (o : Opts) (prog : List S) : Option (List Tok) :=
   let n := 4 * sizeSL prog + 16
   let l := optStmtList n prog .function
   if o.guarded && k1Trigger (optLoop (n - 1) [] prog) then none else
-  (printL o n l false).map emit
+  printL o n l false
+
+/-- model of `(*js.Minifier).Minify` on a program of the fragment (`KeepVarNames`), as source characters -/
+def jsMinify (o : Opts) (prog : List S) : Option (List Char) := (jsTokens o prog).map emit
 
 end Verif.Model.JsStmt
